@@ -131,16 +131,22 @@ def run(ctx):
         fn = getattr(nn, eng)
         for arg, vals in bad.items():
             for v in vals:
-                kw = dict(good)
-                kw[arg] = v
-                seqs = kw.pop('seqs')
-                g = call_impl(lambda: fn(seqs, **kw))
-                ninv += 1
-                ctx.case(nontrivial_key=('invalid', eng, arg, repr(v)))
-                ctx.count('invalid_' + arg)
-                if g[0] == 'ok':
-                    ctx.violation('property', '%s accepted the invalid argument %s=%r and returned %s' % (eng, arg, v, str(g[1])[:100]),
-                                  dict(engine=eng, argument=arg, value=repr(v)), site='nn.%s[invalid:%s]' % (eng, arg))
+                # every distance mode: an engine may take another code path (length buckets, substitution ball) in Hamming mode
+                for mode_kw in ({}, dict(custom_distance='hamming')):
+                    if arg == 'custom_distance' and mode_kw:
+                        continue
+                    kw = dict(good)
+                    kw.update(mode_kw)
+                    kw[arg] = v
+                    seqs = kw.pop('seqs')
+                    g = call_impl(lambda: fn(seqs, **kw))
+                    ninv += 1
+                    ctx.case(nontrivial_key=('invalid', eng, arg, repr(v), bool(mode_kw)))
+                    ctx.count('invalid_' + arg)
+                    if g[0] == 'ok':
+                        ctx.violation('property', '%s accepted the invalid argument %s=%r%s and returned %s' %
+                                      (eng, arg, v, ' (custom_distance=hamming)' if mode_kw else '', str(g[1])[:100]),
+                                      dict(engine=eng, argument=arg, value=repr(v), mode=mode_kw), site='nn.%s[invalid:%s]' % (eng, arg))
         for v in [[1, 2], ['CAF', None], 5]:
             if eng in ('symdel', 'nearest_neighbor'):
                 g = call_impl(lambda: fn(['CAF', 'CAW'], seqs2=v))
